@@ -15,8 +15,11 @@ from .core import (VERIF, KHarness, LostAnchor, Obligation, Scratch, inject_kani
                    kani_playback_test, kani_run_playback, load_kani_inventory, load_known_findings, log, run_kani)
 from .props import PROPS
 
-EVID = VERIF / "evidence"
-REPLAYS = VERIF / "replays"
+# VERIF_OUT redirects evidence/replays (used when a check is pointed at a seeded copy via VERIF_REPO, so that the
+# committed evidence only ever comes from runs against /repo itself)
+_OUT = Path(os.environ.get("VERIF_OUT", str(VERIF)))
+EVID = _OUT / "evidence"
+REPLAYS = _OUT / "replays"
 
 
 def sel_harnesses(inv: dict, pid: str, tier: str) -> list:
